@@ -74,6 +74,18 @@ def workspaces(ck):
                 parts.insert(rng.randint(0, len(parts)), 'include "%s"' % rel)
             ws[names[i]] = " ".join(parts) + "\n"
         out.append((ws, "/main.td"))
+    # twin files: two or three included files with the same layout, so that one symbol is referenced at the SAME byte range
+    # in several files (consecutive entries of its reference list differ only in the file)
+    lib = ("class A<int p = 0> { int f = p; }\nclass B : A;\ndef shared : A;\nmulticlass M<int q> { def _x : A<q>; }\ndefvar gv = 1;\n"
+           "defset list<A> S = { def ins : A; }\n")
+    twin_bodies = ["def u%d : A<gv> { let f = gv; }\n", "defm m%d : M<gv>;\nclass C%d : B;\n", "def v%d { A r = shared; list<A> l = S; int k = gv; }\n",
+                   "class D%d<A a = shared> : A<1> { int g = a.f; }\n", "foreach i = [gv] in def w%d#i : B { let f = i; }\n"]
+    for tb in twin_bodies:
+        for n in (2, 3):
+            ws = {"/main.td": 'include "lib.td"\n' + "".join('include "t%d.td"\n' % k for k in range(n)) + (tb.replace("%d", "9")), "/lib.td": lib}
+            for k in range(n):
+                ws["/t%d.td" % k] = tb.replace("%d", str(k))
+            out.append((ws, "/main.td"))
     files = gen.corpus_files()
     for name, t in (files[:6] if quick else files):
         if len(t) < (40000 if quick else 400000):
